@@ -470,6 +470,9 @@ COMMON_ASSUME = [
     "histories are sampled (seeded PRNG), not exhausted; the result speaks only for the executions observed",
 ]
 
+REENT_RULE = ("RE-ENTRANCY (sequential monitor l2mon): in some calls the body, if it runs, calls another decorated function from inside - mostly the same function with other arguments, as a recursive memoised "
+              "function does - and/or panics like failing user code; the steps (outer lookup, complete inner call, outer store or none) are checked against the model in the order in which they really happen, "
+              "a blocking acquisition of a lock the calling thread already holds (hooked lock_api) is reported as a call that can never return (C17), a panic of the nested call under C16, and no lock may stay held after a body panicked. ")
 CONC_RULE = ("CONCURRENCY: scenarios of 1-3 corpus functions (real macro expansions, sync global and async; thread scope for C14) and 2-3 threads (serial scheduler) or 2-8 threads (free-running with seeded "
              "delays injected at lock attempt/release events) running programs of cached calls, invalidate_with / invalidate_all_with, tag/event/dependency/name invalidations, stats queries and clock steps. "
              "The serial scheduler passes a baton at every lock attempt/release (hooked lock_api: parking_lot and DashMap shard locks), body entry and API-call boundary, with switch probabilities 1.0/0.4/0.15/0.06; "
@@ -481,7 +484,7 @@ L1_RULE = ("generated lookup/store/advance histories (40-200 ops + fill probe, r
            "run on the real engines (GlobalCache / ThreadLocalCache / AsyncGlobalCache) with harness-owned storage and a virtual clock; after every operation the result, the whole store "
            "(keys, values) and the hit/miss counters are compared with the specification model (belief monitor). ")
 
-L2_RULE = ("MACRO LEVEL: generated multi-cache histories (30-120 operations + closing sweep) over groups of 1-6 functions of a generated corpus of 492 #[cache]/#[cache_async] functions "
+L2_RULE = ("MACRO LEVEL: generated multi-cache histories (30-120 operations + closing sweep) over groups of 1-6 functions of a generated corpus of 554 #[cache]/#[cache_async] functions "
            "(attribute presence/values x 10 argument shapes x free fn/&self/&mut self/self x 10 return kinds), calls issued from 1-4 worker threads (serialised), bodies scripted by the harness "
            "(fresh value per execution or deterministic, Ok/Err, payload size, cache_if and invalidate_on verdicts), virtual clock, conditional and group invalidations, stats resets; after every "
            "operation: returned value, body executed?, predicate/check invocations, key listing (never-matching invalidate_with predicate) and stats_registry are compared with the wrapper model. ")
@@ -502,7 +505,7 @@ prop("C08", ["l1", "l2", "conc"], "exploration",
      L1_RULE + L2_RULE + CONC_RULE + "After a concurrent phase an entry that was certainly served from the cache must not be evicted while a certainly never-hit entry (sync caches: the newcomer) is available. " + "Non-trivial = an overflowing store under LFU/ARC/TLRU whose victim must be a score minimiser over the residents or over residents+newcomer; distinct = distinct (configuration, order shape, hit-count vector).",
      COMMON_ASSUME + ["sync engines always hold a zero-score newcomer, so for them the check only establishes that a zero-score entry was evicted (stated in DESIGN.md C08)"], ("C08", "victims_checked_with_unique_resident_minimiser"))
 prop("C16", ["l1", "l2", "conc", "miri"], "exploration",
-     L1_RULE + "Every operation runs under catch_unwind in a build with overflow checks and debug assertions. Non-trivial/distinct = configurations of the full product visited (each with overflow-heavy histories).",
+     L1_RULE + "Every operation runs under catch_unwind in a build with overflow checks and debug assertions. Non-trivial/distinct = configurations of the full product visited (each with overflow-heavy histories). " + REENT_RULE,
      COMMON_ASSUME, ("C16", "ops_under_catch_unwind"))
 prop("C02", ["key", "l2"], "exploration",
      "KEY LEVEL: 50 signature shapes (1-5 arguments over integers, floats, bool, char, String, &str, tuples, Option, nested Option, Vec, slices, Debug-derived struct and enum, &self methods with string-bearing receivers), each as #[cache] and #[cache_async], bodies return a fresh serial. "
@@ -510,10 +513,11 @@ prop("C02", ["key", "l2"], "exploration",
      "(render two neighbouring arguments with separators '', '|', ',', ' ', '\"|\"', ', ', move the boundary, re-parse); f(a); f(b); f(a) must execute twice and serve a its own serial; every 32 pairs the number of listed key strings must equal the number of distinct tuples stored. "
      "Non-trivial/distinct = distinct (function, a, b) pairs. " + L2_RULE + "There, a learned slot->key-string map must stay injective.",
      COMMON_ASSUME + ["'differ' means structural inequality of the argument values (0.0 and -0.0 differ; NaN is excluded)"], ("C02", "pairs"))
-prop("C17", ["conc", "miri"], "exploration",
-     CONC_RULE + "Non-trivial = a schedule that ran to completion or to a diagnosed deadlock.",
-     COMMON_ASSUME + ["serial mode does not model writer preference of parking_lot's RwLock and takes first-use registration (Once/Lazy) out of the scheduled phase by a single-threaded warm-up; both are exercised only in jitter mode",
-                      "schedules are sampled (random walk with bounded preemption), not enumerated"], ("C17", "schedules_completed_without_deadlock"))
+prop("C17", ["conc", "l2", "miri"], "exploration",
+     CONC_RULE + "Non-trivial = a schedule that ran to completion or to a diagnosed deadlock. " + REENT_RULE + L2_RULE,
+     COMMON_ASSUME + ["writer preference is modelled for parking_lot's RwLock only (not for DashMap's shard locks); first-use registration (Once/Lazy) of warmed-up functions happens before the scheduled phase, 'cold' functions register inside it",
+                      "schedules are sampled (random walk with bounded preemption), not enumerated",
+                      "a single thread waiting for itself is observed only on locks that go through lock_api (parking_lot, DashMap); a std::sync lock held across a body would hang the monitor process, which its watchdog reports as inconclusive"], ("C17", "schedules_completed_without_deadlock"))
 prop("C18", ["conc", "miri", "tsan"], "exploration",
      CONC_RULE + "Non-trivial = a quiescent state reached after a concurrent phase and probed.",
      COMMON_ASSUME + ["queue entries whose key is no longer stored are tolerated, as the property says; a stored key the queue does not know shows up in the eviction probe (FIFO/LRU) or as an exceeded bound"], ("C18", "quiescent_states_checked"))
@@ -542,7 +546,7 @@ prop("C15", ["l2", "conc"], "exploration",
      CONC_RULE + L2_RULE + "Focus: global and async functions (custom names included): stats_registry::get(name) must equal the model's hit/miss counters after every call, invalidation and reset; a reset of one name must leave the others unchanged. Non-trivial = a comparison; distinct = distinct (function, hits, misses) triples.",
      COMMON_ASSUME, ("C15", "stats_comparisons"))
 prop("C19", ["bad", "l1", "l2"], "translation_validation",
-     "Translation validation by differential execution: (a) the generated corpus of 492 functions (attribute presence/values x 10 argument shapes x free fn/&self/&mut self/self x 10 return kinds x both macros) must compile; "
+     "Translation validation by differential execution: (a) the generated corpus of 554 functions (attribute presence/values x 10 argument shapes x free fn/&self/&mut self/self x 10 return kinds x both macros) must compile; "
      "(b) every corpus function is driven by boundary-targeted histories (limit N probed with N and N+1 keys, ttl T at T-1ns/T, max_memory with totals between the decimal and the 1024-based reading of KB, policy-separating histories, "
      "scope with several threads, name via stats_registry, tags/events/dependencies via requests, scripted cache_if / invalidate_on) and compared with the core-level model configured from the *generator's* record of the attributes; "
      "(c) 66 invalid attribute lists (unknown names, typos, invalid policy/scope/limit/ttl/max_memory) must fail cargo check while the corrected twin of each compiles; borderline lists are reported without verdict. "
